@@ -8,6 +8,7 @@ import (
 	"net/http/httptest"
 	"net/url"
 	"path/filepath"
+	"time"
 
 	"github.com/prometheus/client_golang/prometheus"
 
@@ -30,7 +31,9 @@ type node struct {
 	svc   *sidecar.Service
 	inj   *sidecar.Injector
 	head  int64
-	rt    http.RoundTripper
+	// headDelay: Prometheus takes that long to answer the head-series question (a busy TSDB)
+	headDelay time.Duration
+	rt        http.RoundTripper
 	// failUpdate: the last update callback (in production the Prometheus reload) fails
 	failUpdate bool
 }
@@ -63,7 +66,12 @@ func newNode(dir, raw string, rt http.RoundTripper) (*node, error) {
 	}
 	n.proxy = sidecar.NewProxy(getJob, func() map[uint64]*target.ScrapeStatus { return n.tm.TargetsInfo().Status },
 		n.cfg.ConfigInfo, prometheus.NewRegistry(), quiet)
-	n.svc = sidecar.NewService("", "http://127.0.0.1:1", func() (int64, error) { return n.head, nil },
+	n.svc = sidecar.NewService("", "http://127.0.0.1:1", func() (int64, error) {
+		if n.headDelay > 0 {
+			time.Sleep(n.headDelay)
+		}
+		return n.head, nil
+	},
 		n.cfg, n.tm, prometheus.NewRegistry(), quiet)
 	if err := n.tm.Load(); err != nil {
 		return nil, err
